@@ -348,3 +348,39 @@ Proof.
     assert (r_kind (reqs s r) = KSlow) as K by (apply (slow_flag_is_kind c progs sched w r true Hwk); reflexivity).
     rewrite Hk in K. apply kind_table_lookup in K. congruence.
 Qed.
+
+(* ---- the completion wrappers of the public APIs ---- *)
+Lemma api_cancelled_status a garbage wres :
+  snd (complete_api a garbage wres FCancelled) =
+  match a with CWork false => None | _ => Some (cancel_code a) end.
+Proof. destruct a as [[]| | | |]; reflexivity. Qed.
+
+Lemma api_normal_status a garbage wres f :
+  f <> FCancelled ->
+  snd (complete_api a garbage wres f) =
+  match a with CWork false => None | CWork true => Some 0%Z | _ => Some wres end.
+Proof. intros H. destruct f; [| contradiction |]; destruct a as [[]| | | |]; reflexivity. Qed.
+
+Lemma api_unregister_once a garbage wres f : fst (complete_api a garbage wres f) = 1.
+Proof. destruct f; destruct a as [[]| | | |]; reflexivity. Qed.
+
+(* ---- fork ---- *)
+Lemma fork_child_counters_zero c parent progs :
+  running parent = 0 -> idle parent = 0 -> fork_child c parent progs = init c progs.
+Proof. intros E1 E2. unfold fork_child. rewrite E1, E2. reflexivity. Qed.
+
+Definition cfgf : config := mkCfg 2 1 (fun _ => []).
+Definition progf : list (list op) := [[OSubmit KSlow]].
+Definition sched_parent : list (nat * nat) := [(0,0); (1,0)].
+Definition sched_child : list (nat * nat) := [(0,0); (1,0); (2,0); (0,0); (1,0); (2,0)].
+
+Lemma fork_child_stuck :
+  let parent := run cfgf (init cfgf progf) sched_parent in
+  let child := run cfgf (fork_child cfgf parent progf) sched_child in
+  running parent = 1 /\ r_st (reqs child 0) = Queued /\ verdict cfgf child = 2%Z /\
+  (forall t, t < 3 -> step cfgf child t 0 = None).
+Proof.
+  cbv zeta. split; [vm_compute; reflexivity|]. split; [vm_compute; reflexivity|].
+  split; [vm_compute; reflexivity|].
+  intros t Ht. destruct t as [|[|[|t]]]; try lia; vm_compute; reflexivity.
+Qed.
